@@ -8,6 +8,7 @@ git -C $WT checkout -q go.work.sum 2>/dev/null
 if diff <(git -C $WT diff) $OUT/patch.diff >/dev/null; then echo "patch==worktree diff: yes"; else echo "patch==worktree diff: NO"; fi
 echo "changed files: $(git -C $WT diff --stat | tail -1)"
 (cd $WT && go build ./...) && echo "build: ok" || echo "build: FAIL"
+git -C $WT checkout -q go.work.sum 2>/dev/null
 /verif/run_baseline.sh $WT | tail -1
 ( "$@" ) >$OUT/demo_with.log 2>&1; echo "demo with change: exit=$?"
 git -C $WT checkout -q go.work.sum 2>/dev/null
